@@ -344,20 +344,30 @@ where
 
     /// Returns true, if `self` and `other` have equivalent amounts, otherwise
     /// `false`.
+    ///
+    /// Values with different units are compared by their equivalents in
+    /// terms of the reference unit, so that the result does not depend on
+    /// the order of the operands.
     #[inline(always)]
     fn eq(&self, other: &Self) -> bool {
-        self.amount() == other.equiv_amount(self.unit())
+        if self.unit() == other.unit() {
+            self.amount() == other.amount()
+        } else {
+            self.amount() * self.unit().scale()
+                == other.amount() * other.unit().scale()
+        }
     }
 
-    /// Returns the partial order of `self`s amount and `other`s eqivalent
-    /// amount in `self`s unit.
+    /// Returns the partial order of `self`s and `other`s amounts, if both
+    /// have the same unit, otherwise the partial order of their equivalents
+    /// in terms of the reference unit.
     fn partial_cmp(&self, other: &Self) -> Option<Ordering> {
         if self.unit() == other.unit() {
             PartialOrd::partial_cmp(&self.amount(), &other.amount())
         } else {
             PartialOrd::partial_cmp(
-                &self.amount(),
-                &other.equiv_amount(self.unit()),
+                &(self.amount() * self.unit().scale()),
+                &(other.amount() * other.unit().scale()),
             )
         }
     }
